@@ -185,6 +185,9 @@ func runC13(c *Ctx) {
 
 	r4 := c.Rule("R4", "splice shape of the patcher: the patched document is the concatenation of data[:start], the rendering of the new value and data[end:], with end = the tokenizer's offset after the value and start = end - len(raw value); a buffer is overwritten in place only where the new rendering is proven to have the old width", 4)
 	spliceShapeRule(c, r4, fp)
+
+	r5 := c.Rule("R5", "reopening yields the count that was written: after every successful storeinfo write of Update and of its undo closure the cache is refreshed with the very record that was written, because the next Update starts from the cached count (shared with C20.R4 / C06.R6)", 6)
+	updateCacheCoherenceRule(c, r5)
 }
 
 // spliceShapeRule (C13.R4): fs.patchJSONNumericField builds its result by concatenation only.
